@@ -56,6 +56,7 @@ structure Blk where
   fHandler : Bool := false
   fStop : Bool := false
   fStopAsync : Bool := false
+  fRestoreCalc : Bool := false      -- timer block: calc_output raises / returns UNDEF on the restored state
   mainFailAt : Option Nat := none   -- the main task raises / returns at this instant
   -- configuration
   persistent : Bool := false        -- AddonPersistence block with persistent=True
@@ -71,6 +72,7 @@ structure Blk where
   stopData : Bool := false          -- output block with stop_data
   onSuccess : Option Nat := none    -- output block: on_success = Event(<timer>, 'start')
   armed : Bool := false             -- timer block initialised into a timed state
+  savedTimed : Bool := false        -- persistent timer block: the saved state is a timed one, not yet expired
   deriving Repr, Inhabited
 
 inductive CauseKind where
@@ -236,7 +238,7 @@ def blk (bs : List Blk) (k : Nat) : Blk := bs.getD k {}
 
 /-! ### initialisation -/
 
-def Blk.restoredOk (b : Blk) : Bool := b.persistent && b.restored && !b.fRestore
+def Blk.restoredOk (b : Blk) : Bool := b.persistent && b.restored && !b.fRestore && !b.fRestoreCalc
 
 /-- init_async is run: AddonAsync block not yet initialised, init_timeout > 0 -/
 def Blk.wantsInitAsync (b : Blk) : Bool :=
@@ -394,9 +396,15 @@ def Task.cleanedBy (oa : List Nat) : Task → Bool
 
 def permOf (l s : List Nat) : Bool := l.isPerm s
 
-/-- timer blocks that the second initialisation pass left in a timed state -/
-def initTimers (bs : List Blk) (started pass2 : List Nat) : List Nat :=
-  started.filter fun k => pass2.contains k && (blk bs k).kind == .timer && (blk bs k).armed
+/-- timer blocks with a pending timer when the initialisation is over: a block whose timed state was
+    RESTORED (first pass; the remaining time is re-armed), or that the second pass initialised into a
+    timed state.  A FAILED restore leaves no timer (patches/C08-restore-fault-leaks-timer.diff:
+    `_restore_state` arms the timer only after `calc_output()` has succeeded) – the block then gets
+    its state, and possibly a timer, from the second pass only -/
+def initTimers (bs : List Blk) (started : List Nat) (pass1 : Bool) (pass2 : List Nat) : List Nat :=
+  started.filter fun k => (blk bs k).kind == .timer &&
+    ((pass1 && (blk bs k).restoredOk && (blk bs k).savedTimed) ||
+     (!(blk bs k).restoredOk && pass2.contains k && (blk bs k).armed))
 
 /-- output functions that the application calls once the circuit runs -/
 def putBlocksOf (bs : List Blk) (started : List Nat) (phase : Phase) : List Nat :=
@@ -473,7 +481,8 @@ def plan (c : Cfg) : Plan :=
   let pass2 : List Nat :=
     if phase == .initFailed || phase == .evalFailed || phase == .running then s2.1 else []
   let putBlocks := putBlocksOf bs started phase
-  let sRun := armAll bs { timers := initTimers bs started pass2, stopped := [], started := started } putBlocks
+  let sRun := armAll bs { timers := initTimers bs started (phase != .startFailed && phase != .afterStart) pass2,
+                              stopped := [], started := started } putBlocks
   let initDone := phase == .evalFailed || phase == .running
   { startEvs := sl.1, started := started, phase := phase, termTime := tT, isError := isErr
     initRes := initRes, failed := failed, inited := pass2
@@ -501,6 +510,8 @@ def outputSet (bs : List Blk) (p : Plan) (k : Nat) : Bool :=
   let b := blk bs k
   b.restoredOk || (p.initRes.any fun e => e.k == k && e.res == .ok)
     || (p.inited.contains k && (b.selfInit || b.hasInitdef))
+    -- an FSM has its state (get_state() works) once `_restore_state` has assigned it, even if calc_output failed
+    || (b.kind == .timer && b.persistent && b.restored && !b.fRestore)
 
 /-- `AddonPersistence.save_persistent_state`: nothing for a block without persistent=True;
     the state is stored, or – `get_state()` of an uninitialised block raises, every error is
